@@ -172,6 +172,13 @@ def fam_drop(seed, n):
     rng = random.Random(seed * 24593 + 17)
     out = []
     i = 0
+    # a signal handler interrupts the wait that the drop performs: the child must be reaped all the same
+    for at in (0, 5 * MS, None):
+        for eat in ([1], [1, 2]):
+            sc = {"id": "dki%d" % i, "exit": {"k": "exited", "v": 1, "at": at}, "ops": ([["kill"]] if at is None else []),
+                  "drop": True, "eintr_at": eat, "kill_latency": MS}
+            i += 1
+            out.append(sc)
     # the usual "took too long: kill it, forget it" pattern, with a child that needs a moment to die
     for pre in ([["kill"]], [["wait_timeout", 2 * MS], ["kill"]], [["terminate"]], [["kill"], ["poll"]], [["kill"], ["wait"]],
                 [["send_signal", 9]], [["kill"], ["exit_status"], ["pid"]]):
